@@ -4,8 +4,10 @@ Events: the real `lhs(F)`, `rhs(F)`, `system(F)`, `functional(F)`, `action(F[, f
 `energy_norm(a[, f])` on generated 0/1/2-forms: sums of bilinear a(u,v), linear L(v) and argument-free M terms over
 several integrals (cell / exterior facet / interior facet with restrictions, subdomain ids), terms that are only
 *affine* in the trial function ((u+f) substituted for u, also through variables, list tensors, component tensors,
-divisions, conj), Gateaux-derivative pieces, mixed elements split with `ufl.split`, and arguments living in
-`MixedFunctionSpace` parts.  A call that raises is counted as rejected, never as a violation.
+divisions, conj; bilinear + linear (+ constant) terms under the Sum nodes of ONE integrand), Gateaux-derivative pieces,
+mixed elements split with `ufl.split`, and arguments living in `MixedFunctionSpace` parts (diagonal and off-diagonal
+blocks, equal and different part spaces).  Cases 0..7 are fixed textbook inputs (the lhs/rhs docstring example and
+minimal MixedFunctionSpace forms), the rest is generated.  A call that raises is counted as rejected, never as a violation.
 
 Oracle: the *form value*  Phi(F)[fields] = sum over the integrals of F of  w(subdomain id) * S(integrand)  in one fixed
 world per integral type (vf/phi.py), with every Argument replaced by a field through `world.subst`; arguments are looked
@@ -58,8 +60,9 @@ LEVEL_NOTE = (
     "degree <= 3, at most two arguments (numbers 0 and 1), at most 3 parts; linearity is tested with real scalars"
 )
 RULE = (
-    "case i = (family plain / split / parts, list of term kinds a, L, M, aL (affine in u), gateaux, integral types and "
-    "subdomains, cell, real/complex) from the seeded generator; distinct = (family, term kinds, operations that held, "
+    "case i < 8: fixed small forms; case i = (family plain / split / parts, list of term kinds a, L, M, aL (affine in u), "
+    "sum (mixed arities in one integrand), gateaux, zero, integral types and subdomains, cell, real/complex) from the "
+    "seeded generator; distinct = (family, term kinds, operations that held, "
     "cell, mode, skeleton depth 2 of the first integrand); non-trivial = the operation returned and the compared "
     "reference value is non-zero in the first world"
 )
@@ -74,14 +77,18 @@ ASSUMPTIONS = [
     "arguments are identified by UFL equality = (function space, number, part)",
     "in real mode all field data are real, conj is the identity",
 ]
-BUDGET = {"quick": 45, "thorough": 420}
-NCASES = {"quick": 4000, "thorough": 60000}
+BUDGET = {"quick": 55, "thorough": 440}
+NCASES = {"quick": 1600, "thorough": 16000}
 CASE_TIMEOUT = 40.0
+# a full run (quiet machine: ~0.06 s per case) observes per case about: case_held .97, held_lhs/rhs/functional 1.0,
+# held_lhs_minus_rhs .73, held_action 1.16, held_adjoint .45, held_energy_norm .19, nontrivial 4.1,
+# nontrivial_adjoint_complex .14; the floors are ~35 % of that (time-truncated runs on a loaded machine still pass)
 FLOORS = {
-    "quick": {"case_held": 250, "held_lhs": 200, "held_rhs": 200, "held_functional": 250, "held_lhs_minus_rhs": 100,
-              "held_action": 150, "held_adjoint": 40, "held_energy_norm": 20, "nontrivial": 400},
-    "thorough": {"case_held": 5000, "held_lhs": 4000, "held_rhs": 4000, "held_functional": 5000, "held_lhs_minus_rhs": 2000,
-                 "held_action": 3000, "held_adjoint": 800, "held_energy_norm": 400, "nontrivial": 8000},
+    "quick": {"case_held": 540, "held_lhs": 555, "held_rhs": 555, "held_functional": 555, "held_lhs_minus_rhs": 400,
+              "held_action": 650, "held_adjoint": 250, "held_energy_norm": 100, "nontrivial": 2300, "nontrivial_adjoint_complex": 70},
+    "thorough": {"case_held": 5400, "held_lhs": 5500, "held_rhs": 5500, "held_functional": 5500, "held_lhs_minus_rhs": 4000,
+                 "held_action": 6500, "held_adjoint": 2500, "held_energy_norm": 1000, "nontrivial": 23000,
+                 "nontrivial_adjoint_complex": 700},
 }
 COVER_FLOORS = {
     "quick": {"families_held": ["plain", "split", "parts"], "itypes_held": ["cell", "exterior_facet", "interior_facet"]},
@@ -417,7 +424,7 @@ def build(rng, family, cell, gdim, cplx):
         elif kind == "sum":
             # terms of different arity under Sum nodes of ONE integrand, in several associations
             ta, tl = term(G, rng, d, vi, uj), term(G, rng, d, vi)
-            shape = rng.choice(["a+L", "L+a", "a-L", "(a+L)*c", "a+(L+a)", "(L+a)+L", "a+L+M", "var(a+L)", "(a+L)/c"])
+            shape = rng.choice(["a+L", "L+a", "a-L", "(a+L)*c", "a+(L+a)", "(L+a)+L", "a+L+M", "var(a+L)", "(a+L)/c", "list[a,L]"])
             c = G.expr((), 1)
             if shape == "a+L":
                 integrand = ta + tl
@@ -435,6 +442,10 @@ def build(rng, family, cell, gdim, cplx):
                 integrand = ta + tl + G.expr((), d)
             elif shape == "var(a+L)":
                 integrand = ufl.variable(ta + tl) * c
+            elif shape == "list[a,L]":
+                # components providing different argument sets: the part extraction refuses this (rejected) or must be right
+                comps = [ta, tl] if rng.random() < 0.5 else [tl, ta]
+                integrand = ufl.dot(ufl.as_vector(comps), ufl.as_vector([c, G.expr((), 0)]))
             else:
                 c0 = U.const((), 0)
                 integrand = (ta + tl) / (3 + (c0 * c0 if not cplx else ufl.real(c0 * ufl.conj(c0))))
@@ -574,7 +585,6 @@ def check_parts(ctx, sp, F, wss, fields, tag=""):
     }
     PF = Cache(F, subs)
     two = bool(uargs)
-    one = bool(vargs) and not two
 
     # ---- scope guard (fast arithmetic only): F affine in each argument group, nothing in the trial function alone
     in_scope = True
@@ -745,9 +755,12 @@ def check_action(ctx, sp, F, wss, fields, rng):
         unmatched = [c for c in new if not any(c.ufl_function_space() == a_.ufl_function_space() for a_ in hi)]
         if unmatched or not cands:
             ctx.count("action_auto_new_coefficient_not_identified")
-            ctx.violation(f"C16/action/{sp.family}/auto-coefficient-not-in-argument-space",
+            ctx.count("violated_action")
+            why = "replaced-argument-only-in-vanishing-terms" if independent_of(F, lo, hi, wss, fields) else "auto-coefficient-not-in-argument-space"
+            ctx.violation(f"C16/action/{sp.family}/{why}",
                           "action(F) introduced a new coefficient that is in none of the replaced arguments' spaces",
-                          {"form": safe_str(F, 800), "result": safe_str(out, 800)})
+                          {"form": safe_str(F, 800), "result": safe_str(out, 800), "F.arguments()": [str(x) for x in F.arguments()],
+                           "new coefficients": [repr(c)[:200] for c in new], "mode": mode, "derivatives_expanded": expanded})
             return "violated"
         candidates = cands
     sub_rest = lin(fields, lo, [(1, 0)])
@@ -772,16 +785,22 @@ def check_action(ctx, sp, F, wss, fields, rng):
         sub = mode
         # degenerate input: F.arguments() lists the replaced arguments, but the value of F does not depend on them
         # (they occur only in terms that vanish identically, e.g. the second derivative of a functional linear in w)
-        try:
-            CD = Cache(F, {"q": {**sub_rest, **lin(fields, hi, [(1, 0)])}, "0": {**sub_rest, **lin(fields, hi, [])}})
-            if all(abs(complex(CD("q", ws, CB).arr) - complex(CD("0", ws, CB).arr)) <= 1e-9 * max(1.0, CD("q", ws, CB).maxabs) for ws in wss):
-                sub = "replaced-argument-only-in-vanishing-terms"
-        except Exception:
-            pass
+        if independent_of(F, lo, hi, wss, fields):
+            sub = "replaced-argument-only-in-vanishing-terms"
         report(ctx, sp, "action", sub, o, "Phi(action(F, f)) differs from Phi(F) with its last argument := f", out,
-               "Phi(F)[highest-numbered arguments := f]", {"F.arguments()": [str(x) for x in F.arguments()], "mode": mode,
+               "Phi(F)[highest-numbered arguments := f]", {"F": safe_str(F, 1200), "F.arguments()": [str(x) for x in F.arguments()], "mode": mode,
                                                           "derivatives_expanded": expanded})
     return o.verdict
+
+
+def independent_of(F, lo, hi, wss, fields):
+    """Numerically: the value of F does not depend on the arguments in hi (they occur only in vanishing terms)."""
+    try:
+        rest = lin(fields, lo, [(1, 0)])
+        CD = Cache(F, {"q": {**rest, **lin(fields, hi, [(1, 0)])}, "0": {**rest, **lin(fields, hi, [])}})
+        return all(abs(complex(CD("q", ws, CB).arr) - complex(CD("0", ws, CB).arr)) <= 1e-9 * max(1.0, CD("q", ws, CB).maxabs) for ws in wss)
+    except Exception:
+        return False
 
 
 def _all_spaces(F):
@@ -802,6 +821,7 @@ def check_adjoint(ctx, sp, a, wss, fields, rng):
         return None
     parts = any(x.part() is not None for x in vargs + uargs)
     mode = rng.choice(["default", "default", "reordered"])
+    mode = sp.note.get("adjoint_mode", mode)
     expanded = rng.random() < 0.25
     n0, n1 = 0, 1
     reordered = None
@@ -853,7 +873,14 @@ def check_adjoint(ctx, sp, a, wss, fields, rng):
                 ctx.count("nontrivial_adjoint_complex")
     if o.verdict == "violated":
         sub = mode
-        extra = None
+        extra = {"a": safe_str(a, 1200), "reordered_arguments": safe_str(reordered, 400)}
+        try:
+            from ufl.algorithms import extract_arguments
+
+            extra["arguments of the result (element, number, part)"] = sorted(
+                f"{t.ufl_element()}, {t.number()}, {t.part()}" for t in extract_arguments(out))
+        except Exception:
+            pass
         if parts:
             blocks = sorted(set(sp.note["blocks"]))
             offdiag = [b for b in blocks if b[0] != b[1]]
@@ -863,7 +890,8 @@ def check_adjoint(ctx, sp, a, wss, fields, rng):
                 sub += "/offdiagonal-block/" + ("equal-part-spaces" if same else "different-part-spaces")
             else:
                 sub += "/diagonal-blocks"
-            extra = {"blocks": [list(b) for b in blocks]}
+            extra["blocks"] = [list(b) for b in blocks]
+            extra["part spaces"] = list(spaces)
             try:
                 out.arguments()
             except Exception as ex:
@@ -905,7 +933,8 @@ def check_energy_norm(ctx, sp, a, wss, fields, rng):
         ctx.count("nontrivial")
         ctx.count("nontrivial_energy_norm")
     if o.verdict == "violated":
-        report(ctx, sp, "energy_norm", mode, o, "Phi(energy_norm(a, f)) differs from Phi(a)[v := f, u := f]", out, "Phi(a)[v := f, u := f]")
+        report(ctx, sp, "energy_norm", mode, o, "Phi(energy_norm(a, f)) differs from Phi(a)[v := f, u := f]", out, "Phi(a)[v := f, u := f]",
+               {"a": safe_str(a, 1200)})
     return o.verdict
 
 
@@ -948,12 +977,60 @@ class _Mute:
         pass
 
 
+def fixed_spec(k):
+    """Small hand-written inputs (cases 0..NFIXED-1): the docstring example and minimal MixedFunctionSpace forms."""
+    cell, gdim = "triangle", 2
+    mesh = E.mesh_for(cell, gdim)
+    P1 = ufl.FunctionSpace(mesh, E.P(cell, 1))
+    P2 = ufl.FunctionSpace(mesh, E.P(cell, 2))
+    sp = Spec()
+    sp.cell, sp.gdim, sp.cplx = cell, gdim, k % 2 == 1
+    dx = ufl.dx(domain=mesh)
+    f = ufl.Coefficient(P1)
+    if k in (0, 1):
+        # lhs/rhs docstring: a = u*v*dx + f*v*dx
+        sp.family = "plain"
+        v, u = ufl.TestFunction(P1), ufl.TrialFunction(P1)
+        pa, pl = u * v * dx, f * v * dx
+        sp.pieces = [("a:mass", "cell", "everywhere", pa), ("L", "cell", "everywhere", pl)]
+        sp.note = {"spaces": ["P1", "P1"], "blocks": [(0, 0)]}
+        sp.a_form = pa
+    else:
+        sp.family = "parts"
+        names = ["P1", "P2"] if k in (2, 3, 6, 7) else ["P1", "P1"]
+        W = ufl.MixedFunctionSpace(*[{"P1": P1, "P2": P2}[n] for n in names])
+        (v0, v1), (u0, u1) = ufl.TestFunctions(W), ufl.TrialFunctions(W)
+        if k in (2, 3, 4, 5):
+            # one off-diagonal block (test part 0, trial part 1)
+            pa = u1.dx(0) * v0 * dx
+            blocks = [(0, 1)]
+        else:
+            # diagonal blocks only
+            pa = u0 * v0 * dx + ufl.inner(ufl.grad(u1), ufl.grad(v1)) * dx
+            blocks = [(0, 0), (1, 1)]
+        pl = f * v0 * dx
+        sp.pieces = [("a:term", "cell", "everywhere", pa), ("L", "cell", "everywhere", pl)]
+        sp.note = {"spaces": names, "blocks": blocks, "diag_only": k in (6, 7)}
+        sp.a_form = pa
+    sp.note["adjoint_mode"] = "reordered" if k == 7 else "default"
+    sp.F = sp.pieces[0][3] + sp.pieces[1][3]
+    return sp
+
+
+NFIXED = 8
+
+
 def case(ctx, i, rng):
-    cell, gdim = rng.choice(CELLS)
-    cplx = rng.random() < 0.35
-    family = rng.choice(["plain", "plain", "plain", "split", "parts", "parts"])
+    if i < NFIXED:
+        family = "fixed"
+        cell, gdim, cplx = "triangle", 2, i % 2 == 1
+    else:
+        cell, gdim = rng.choice(CELLS)
+        cplx = rng.random() < 0.35
+        family = rng.choice(["plain", "plain", "plain", "split", "parts", "parts"])
     try:
-        sp = build(rng, family, cell, gdim, cplx)
+        sp = fixed_spec(i) if i < NFIXED else build(rng, family, cell, gdim, cplx)
+        family = sp.family
     except Exception as ex:
         ctx.count("build_rejected")
         ctx.covered("build_rejected_with", family + ": " + type(ex).__name__ + ": " + str(ex)[:60])
